@@ -111,37 +111,121 @@ func c05NoTable(tier string, id int, r *rand.Rand, o *srchOut) {
 	o.stat(fmt.Sprintf("notable_eval%d_nosort%d_dedup%d", sc.evk, b2i(sc.nosort), b2i(sc.dedup)), 1)
 
 	if r.Intn(3) == 0 {
-		// AnalyzeAll on a fresh engine
+		// AnalyzeAll on a fresh engine; in half of the cases the context is cancelled inside the k-th leaf evaluation of the call:
+		// k inside Analyze's own leaves, or beyond them so that the flag flips during the second pass, or beyond the whole call
 		p := ps[i]
-		pvs, v, st := e.analyzeAll(p)
-		d := st.Depth
-		ms, vs := orc.childValues(p, d)
-		want := orc.negamax(p, d)
-		var wantSet, gotSet []string
-		for j, m := range ms {
-			if vs[j] == want {
-				wantSet = append(wantSet, encMove(m))
+		k := 0
+		if r.Intn(2) == 0 && !sc.dedup {
+			scout := newSrchEngine(sc)
+			scout.analyze(p, 0)
+			own := scout.cnt // leaf evaluations of Analyze alone
+			scout = newSrchEngine(sc)
+			scout.analyzeAllCancel(p, 0)
+			total := scout.cnt
+			switch x := r.Intn(10); {
+			case x < 3 && own > 0:
+				k = 1 + r.Intn(own)
+				o.stat("analyzeall_cancel_in_analyze", 1)
+			case x < 9 && total > own:
+				k = own + 1 + r.Intn(total-own)
+				o.stat("analyzeall_cancel_in_second_pass", 1)
+			default:
+				k = total + 1 + r.Intn(5)
+				o.stat("analyzeall_cancel_after_call", 1)
 			}
 		}
+		pvs, v, st := e.analyzeAllCancel(p, k)
+		d := st.Depth
+		desc := c05Describe(e, []c05call{{p, k}})
+		o.stat("analyzeall_calls", 1)
+		var gotSet []string
 		for _, l := range pvs {
 			if len(l) > 0 {
 				gotSet = append(gotSet, encMove(l[0]))
 			}
 		}
-		sort.Strings(wantSet)
 		sort.Strings(gotSet)
 		got := strings.Join(gotSet, ",")
-		desc := c05Describe(e, []c05call{{p, 0}})
-		o.stat("analyzeall_calls", 1)
-		o.stat(fmt.Sprintf("analyzeall_bestmoves_%s", bucket(len(wantSet))), 1)
-		if v != want {
-			o.printf("ORACLE-FAIL precise-value-mismatch | %s AnalyzeAll %s | value %d at depth %d | exhaustive negamax to depth %d is %d", cid, desc, v, d, d, want)
-		} else if got != strings.Join(wantSet, ",") {
-			o.printf("ORACLE-FAIL analyze-all-set-mismatch | %s AnalyzeAll %s | first moves {%s} value %d depth %d | the moves attaining the negamax value are {%s}",
-				cid, desc, got, v, d, strings.Join(wantSet, ","))
-		}
-		if d != sc.depth && srchVerdict(v) == 0 {
-			o.printf("ORACLE-FAIL reported-depth-short | %s AnalyzeAll %s | depth %d value %d | an undecided uncancelled search reaches the configured depth %d", cid, desc, d, v, sc.depth)
+		if len(pvs) == 0 || d <= 0 {
+			// nothing was completed: only a cancelled call may say so
+			if !st.Canceled || k == 0 {
+				o.printf("ORACLE-FAIL no-result | %s AnalyzeAll %s | %d lines depth %d canceled %v | an uncancelled search of a live position returns a line", cid, desc, len(pvs), d, st.Canceled)
+			}
+			if len(pvs) != 0 {
+				o.printf("ORACLE-FAIL analyze-all-lists-unsearched-move | %s AnalyzeAll %s | first moves {%s} at depth %d | no iteration was completed: no line can be reported", cid, desc, got, d)
+			}
+		} else {
+			ms, vs := orc.childValues(p, d)
+			want := orc.negamax(p, d)
+			val := map[string]int64{}
+			var wantSet []string
+			for j, m := range ms {
+				val[encMove(m)] = vs[j]
+				if vs[j] == want {
+					wantSet = append(wantSet, encMove(m))
+				}
+			}
+			sort.Strings(wantSet)
+			o.stat(fmt.Sprintf("analyzeall_bestmoves_%s", bucket(len(wantSet))), 1)
+			if st.Canceled {
+				o.stat(fmt.Sprintf("analyzeall_canceled_lines_%s", bucket(len(gotSet))), 1)
+			}
+			if v != want {
+				o.printf("ORACLE-FAIL precise-value-mismatch | %s AnalyzeAll %s | value %d at depth %d | exhaustive negamax to depth %d is %d", cid, desc, v, d, d, want)
+			} else {
+				// cancelled or not: a listed first move must attain the value (an abandoned child search has no value)
+				bad := ""
+				for _, g := range gotSet {
+					if cv, ok := val[g]; !ok || cv != want {
+						bad = g
+						break
+					}
+				}
+				if bad != "" && (st.Canceled || k > 0) {
+					o.printf("ORACLE-FAIL analyze-all-lists-unsearched-move | %s AnalyzeAll %s | first moves {%s} value %d depth %d canceled %v | %s leads to %d, not to the reported value; the moves attaining it are {%s}",
+						cid, desc, got, v, d, st.Canceled, bad, val[bad], strings.Join(wantSet, ","))
+				} else if (bad != "" || !st.Canceled) && got != strings.Join(wantSet, ",") {
+					o.printf("ORACLE-FAIL analyze-all-set-mismatch | %s AnalyzeAll %s | first moves {%s} value %d depth %d | the moves attaining the negamax value are {%s}",
+						cid, desc, got, v, d, strings.Join(wantSet, ","))
+				}
+			}
+			// cancellation only truncates (C16's view of AnalyzeAll): with NoSort the order of the lines is fixed by AllMoves, so the
+			// first moves of a cancelled call are a prefix of those of an uninterrupted call limited to the reported depth
+			if st.Canceled && sc.nosort && v == want {
+				sc2 := sc
+				sc2.depth = d
+				full, _, _ := newSrchEngine(sc2).analyzeAllCancel(p, 0)
+				okPrefix := len(pvs) <= len(full)
+				for j := 0; okPrefix && j < len(pvs); j++ {
+					okPrefix = len(pvs[j]) > 0 && len(full[j]) > 0 && pvs[j][0].Equal(full[j][0])
+				}
+				o.stat("analyzeall_prefix_checked", 1)
+				if !okPrefix {
+					var fh []string
+					for _, l := range full {
+						if len(l) > 0 {
+							fh = append(fh, encMove(l[0]))
+						}
+					}
+					var gh []string
+					for _, l := range pvs {
+						if len(l) > 0 {
+							gh = append(gh, encMove(l[0]))
+						}
+					}
+					o.printf("ORACLE-FAIL analyze-all-not-prefix | %s AnalyzeAll %s | first moves in order [%s] depth %d | the uninterrupted call limited to depth %d lists [%s]",
+						cid, desc, strings.Join(gh, ","), d, d, strings.Join(fh, ","))
+				}
+			}
+			if k == 0 && st.Canceled {
+				o.printf("ORACLE-FAIL no-result | %s AnalyzeAll %s | canceled %v | an uncancelled call is not reported as cancelled", cid, desc, st.Canceled)
+			}
+			if !st.Canceled && d != sc.depth && srchVerdict(v) == 0 {
+				o.printf("ORACLE-FAIL reported-depth-short | %s AnalyzeAll %s | depth %d value %d | an undecided uncancelled search reaches the configured depth %d", cid, desc, d, v, sc.depth)
+			}
+			if id%40 == 0 {
+				o.printf("SAMPLE AnalyzeAll %s -> first moves {%s} value %d depth %d canceled %v; oracle: negamax %d, best {%s}", desc, got, v, d, st.Canceled, want, strings.Join(wantSet, ","))
+			}
 		}
 		if e.modelComparable() && e.cnt <= srchModelBudget(tier) {
 			var lines []string
@@ -151,13 +235,14 @@ func c05NoTable(tier string, id int, r *rand.Rand, o *srchOut) {
 			if got == "" {
 				got = "-"
 			}
-			o.printf("CASE %s ; %s ; ALL ; %s@0 | %s %d %d | %s", cid, e.encCfg(), enc(p), got, v, d, strings.Join(lines, " ; "))
+			l2 := strings.Join(lines, " ; ")
+			if l2 == "" {
+				l2 = "-"
+			}
+			o.printf("CASE %s ; %s ; ALL ; %s@%d | %s %d %d %d | %s", cid, e.encCfg(), enc(p), k, got, v, d, b2i(st.Canceled), l2)
 			o.stat("cases_model", 1)
 		} else {
 			o.stat("cases_oracle_only", 1)
-		}
-		if id%40 == 0 {
-			o.printf("SAMPLE AnalyzeAll %s -> first moves {%s} value %d depth %d; oracle: negamax %d, best {%s}", desc, got, v, d, want, strings.Join(wantSet, ","))
 		}
 		return
 	}
